@@ -177,9 +177,11 @@ _bounded('C18',
          "of <= 2 (thorough 3) literals over the components of a principal formula are offered with premises none / "
          "phi / ~phi; resolution chains, equality chains, rewrite-style rules and Farkas combinations have dedicated "
          "generators with near misses. Every accepted conclusion must follow (z3, own encoding) from the premises whose "
-         "hypotheses it carries.",
-         "No deductive part. Findings repaired in 16 rule evaluations (connective / length checks, hypotheses). Rules "
-         "with binders and contexts (refl, bind, sko_*, onepoint, forall_inst, qnt_*) are not exercised.", '4 C18')
+         "hypotheses it carries. One leaf function is proved deductively: try_resolve (pivot search of th_resolution) "
+         "returns positions of complementary literals, and None only if there is no complementary pair.",
+         "Deductive part limited to try_resolve (29 obligations). Findings repaired in 16 rule evaluations (connective / "
+         "length checks, hypotheses). Rules with binders and contexts (refl, bind, sko_*, onepoint, forall_inst, qnt_*) "
+         "are not exercised.", '4 C18')
 _bounded('C06',
          "Bounded stand-in (not a proof): directed and generated goals of the translatable fragment (quantifiers over "
          "nat/int/real/bool in both polarities, truncated subtraction, division, of_nat, functions, sets) given to "
